@@ -203,6 +203,11 @@ SHAPES = [
     (H + 'HttpHeaderFieldValueContentSecurityPolicy', 'many-directives-htab', lambda n: b"img-src\t'self';\t" * n + b"default-src\t'none'"),
     (H + 'HttpHeaderFields', 'many-headers-bare-lf', lambda n: b'X-a: b\n' * n + b'\r\n'),
     (H + 'HttpHeaderFields', 'many-known-headers-bare-lf', lambda n: b'Server: b\n' * n + b'\r\n'),
+    (H + 'HttpHeaderFields', 'many-numeric-headers-bare-lf', lambda n: b'Age: 5\n' * n + b'\r\n'),
+    (H + 'HttpHeaderFields', 'many-date-headers-bare-lf', lambda n: b'Date: Mon, 01 Jan 2001 00:00:00 GMT\n' * n + b'\r\n'),
+    (H + 'HttpHeaderFields', 'many-sts-headers-bare-lf', lambda n: b'Strict-Transport-Security: max-age=1\n' * n + b'\r\n'),
+    (H + 'HttpHeaderFields', 'many-known-headers-lf-only', lambda n: b'Server: nginx\n' * n + b'\n'),
+    (H + 'HttpHeaderFields', 'many-numeric-headers-lone-cr', lambda n: b'Age: 5\r' * n + b'\r\n'),
     (H + 'HttpHeaderFieldValueSTS', 'many-unknown-directives-htab', lambda n: b'max-age=1' + b';\ta=b' * n),
     (H + 'HttpHeaderFieldValueCacheControlResponse', 'many-unknown-directives-htab', lambda n: b'no-cache' + b',\ta=b' * n),
     (H + 'HttpHeaderFieldValueSetCookie', 'many-attributes-htab', lambda n: b'a=b' + b';\tx=y' * n),
